@@ -277,6 +277,8 @@ func init() {
 		notBefore, notAfter, orgFromCfg, serverAuth := "absent", "absent", false, false
 		var verifyKeys []string
 		verifyNameIsKey := false
+		var dnsParamFn *ast.FuncDecl
+		dnsParam := ""
 		for _, fd := range reach {
 			// the identifier that indexes the cache map in this function
 			keyIdent := ""
@@ -317,12 +319,54 @@ func init() {
 								if src(kv.Key) == "DNSName" && keyIdent != "" && src(kv.Value) == keyIdent {
 									verifyNameIsKey = true
 								}
+								if src(kv.Key) == "DNSName" && keyIdent == "" {
+									// the options are built in a helper: its parameter must be fed the caller's cache key
+									dnsParamFn, dnsParam = fd, src(kv.Value)
+								}
 							}
 						}
 					}
 				}
 				return true
 			})
+		}
+		if !verifyNameIsKey && dnsParamFn != nil {
+			idx := -1
+			k := 0
+			for _, fl := range dnsParamFn.Type.Params.List {
+				for _, nm := range fl.Names {
+					if nm.Name == dnsParam {
+						idx = k
+					}
+					k++
+				}
+			}
+			for _, fd := range reach {
+				key := ""
+				ast.Inspect(fd.Body, func(n ast.Node) bool {
+					if ix, ok := n.(*ast.IndexExpr); ok && isCerts(ix) {
+						key = src(ix.Index)
+					}
+					return true
+				})
+				ast.Inspect(fd.Body, func(n ast.Node) bool {
+					c, ok := n.(*ast.CallExpr)
+					if !ok || idx < 0 || idx >= len(c.Args) || key == "" {
+						return true
+					}
+					name := ""
+					switch fn := c.Fun.(type) {
+					case *ast.SelectorExpr:
+						name = fn.Sel.Name
+					case *ast.Ident:
+						name = fn.Name
+					}
+					if name == dnsParamFn.Name.Name && src(c.Args[idx]) == key {
+						verifyNameIsKey = true
+					}
+					return true
+				})
+			}
 		}
 		sort.Strings(verifyKeys)
 		g.def("tmplNotBefore", "String", leanStr(notBefore))
@@ -331,5 +375,92 @@ func init() {
 		g.def("tmplServerAuth", "Bool", strconv.FormatBool(serverAuth))
 		g.def("verifyOptionKeys", "List String", leanList(verifyKeys))
 		g.def("verifyNameIsCacheKey", "Bool", strconv.FormatBool(verifyNameIsKey))
+
+		// (d) a cache hit is handed out only from inside the success branch of its Verify: every `return <hit>, …`
+		// (hit = the variable read from the map, before it is reassigned to the fresh leaf) has an enclosing
+		// `if _, err := ….Verify(…); err == nil { … }` whose body contains it.
+		verified, unverified := 0, 0
+		for _, fd := range reach {
+			hitVar := ""
+			var limit token.Pos
+			ast.Inspect(fd.Body, func(n ast.Node) bool {
+				as, ok := n.(*ast.AssignStmt)
+				if !ok || len(as.Lhs) == 0 {
+					return true
+				}
+				if hitVar == "" && len(as.Rhs) == 1 && isCerts(as.Rhs[0]) {
+					hitVar = src(as.Lhs[0])
+				} else if hitVar != "" && limit == 0 && as.Tok == token.ASSIGN && src(as.Lhs[0]) == hitVar {
+					limit = as.Pos()
+				}
+				return true
+			})
+			if hitVar == "" {
+				continue
+			}
+			// the guard: an `if` whose init or condition verifies the hit — `hit.Leaf.Verify(…)` directly, or a
+			// function of this package that does (an extracted helper) — and whose BODY holds the return
+			var hasVerify func(n ast.Node, depth int) bool
+			hasVerify = func(n ast.Node, depth int) bool {
+				found := false
+				ast.Inspect(n, func(m ast.Node) bool {
+					c, ok := m.(*ast.CallExpr)
+					if !ok || found {
+						return !found
+					}
+					name := ""
+					switch fn := c.Fun.(type) {
+					case *ast.SelectorExpr:
+						name = fn.Sel.Name
+					case *ast.Ident:
+						name = fn.Name
+					}
+					if name == "Verify" {
+						found = true
+					} else if d := decls[name]; d != nil && depth < 3 && hasVerify(d.Body, depth+1) {
+						found = true
+					}
+					return !found
+				})
+				return found
+			}
+			isVerifyGuard := func(is *ast.IfStmt) bool {
+				if is.Init != nil && hasVerify(is.Init, 0) {
+					if cond, ok := is.Cond.(*ast.BinaryExpr); ok && cond.Op == token.EQL && src(cond.Y) == "nil" {
+						return true
+					}
+				}
+				if u, ok := is.Cond.(*ast.UnaryExpr); ok && u.Op == token.NOT {
+					return false
+				}
+				return hasVerify(is.Cond, 0)
+			}
+			var stack []ast.Node
+			ast.Inspect(fd.Body, func(n ast.Node) bool {
+				if n == nil {
+					stack = stack[:len(stack)-1]
+					return true
+				}
+				stack = append(stack, n)
+				rs, ok := n.(*ast.ReturnStmt)
+				if !ok || len(rs.Results) == 0 || src(rs.Results[0]) != hitVar || (limit != 0 && rs.Pos() > limit) {
+					return true
+				}
+				guarded := false
+				for i, anc := range stack {
+					if is, ok := anc.(*ast.IfStmt); ok && isVerifyGuard(is) && i+1 < len(stack) && stack[i+1] == ast.Node(is.Body) {
+						guarded = true
+					}
+				}
+				if guarded {
+					verified++
+				} else {
+					unverified++
+				}
+				return true
+			})
+		}
+		g.def("verifiedHitReturns", "Nat", strconv.Itoa(verified))
+		g.def("unverifiedHitReturns", "Nat", strconv.Itoa(unverified))
 	})
 }
